@@ -840,3 +840,10 @@ def restore_every_id(ctx, rid: str) -> None:
     ok = unconditional_in_loop(g_fs, hdr, addn)
     c.ob(rid, ok, fs, "restore-adds-every-id", "every iteration of the restore loop adds the state or raises" if ok else
          "an iteration of the restore loop can complete without adding the persisted state (and without raising)", lp)
+
+
+def role_defects(ctx, rid: str) -> None:
+    """Roles that could only be located by fallback because their defining construct is gone (see rules/roles.py)."""
+    for v in VIEWS:
+        for kind, f_, msg in roles(ctx, v).defects:
+            ctx.c.ob(rid, False, f_, f"{v}:{kind}", msg, f_.node)
